@@ -37,3 +37,13 @@
   (ite (>= s 256) (ite (>= (s256 v) 0) 0 (- TT256 1)) (u256 (ediv (s256 v) (pow2 s)))))
 ; BYTE: i-th byte counting from the most significant
 (define-fun evm_byte ((i Int) (a Int)) Int (ite (< i 32) (mod (ediv a (pow256 (- 31 i))) 256) 0))
+
+; Memory expansion fee: for at most 2^32-1 words the 64-bit computation 3*w + w*w/512 equals the
+; mathematical quantity (no intermediate wraps). Links memoryGasCost#post.nowrap and
+; #post.quadratic64 to the Yellow Paper's C_mem.
+;;@lemma[C08] memfee_nowrap
+(forall ((w (_ BitVec 64)))
+  (=> (bvule w #x00000000ffffffff)
+      (= ((_ zero_extend 64) (bvadd (bvmul w #x0000000000000003) (bvudiv (bvmul w w) #x0000000000000200)))
+         (bvadd (bvmul ((_ zero_extend 64) w) ((_ zero_extend 64) #x0000000000000003))
+                (bvudiv (bvmul ((_ zero_extend 64) w) ((_ zero_extend 64) w)) ((_ zero_extend 64) #x0000000000000200))))))
